@@ -93,6 +93,28 @@ PROPS["C08"]["functions"] += [WEB + "StoreBasedCollection.get_ctag", WEB + "Stor
 PROPS["C01"]["functions"] += [W + "PostMethod.handle"]
 PROPS["C02"]["functions"] += [W + "_do_get"]
 PROPS["C03"]["functions"] += [W + "_do_get"]
+PROPS["C12"] = {
+    "level": "other",
+    "functions": ["xandikos.collation._match", "xandikos.carddav.apply_text_match", "xandikos.carddav.apply_param_filter",
+                  "xandikos.carddav.apply_prop_filter", "xandikos.carddav.apply_filter"],
+    "explanation": "Filter evaluation (match types, collations incl. totality on non-ASCII text, negate, param-filter, "
+                   "prop-filter over property instances, anyof/allof, only address objects match) is discharged against an "
+                   "RFC 6352 specification; the report driver (nresults, address-data rendering) is not under contract; two "
+                   "deviations are known findings (text is matched against str(content_line); prop-filter test attribute ignored).",
+}
+_FB = "xandikos.store.config.FileBasedCollectionMetadata."
+_RM = "xandikos.store.git.RepoCollectionMetadata."
+PROPS["C15"] = {
+    "level": "other",
+    "functions": [_FB + f"{a}_{p}" for p in ("displayname", "description", "color", "comment", "source_url", "order") for a in ("set", "get")]
+                 + ["xandikos.store.git.GitStore.config"]
+                 + [_RM + f"{a}_{p}" for p in ("color", "displayname", "comment", "description") for a in ("set", "get")]
+                 + [W + "apply_modify_prop"],
+    "explanation": "Every metadata setter stores exactly the value and persists once, every getter returns the stored raw "
+                   "value (no interpolation), the metadata object is rebuilt from the repository on each access, and PROPPATCH "
+                   "reports 200 only when the handler's set_value returned. The configparser / dulwich-config file round trips "
+                   "are ASSUMED (bounded conformance only).",
+}
 PROPS["C13"] = {
     "level": "proof",
     "functions": [WEB + "XandikosBackend._map_to_file_path", WEB + "XandikosBackend.get_resource",
